@@ -281,7 +281,20 @@ func (m *Module) Gen(w *engine.World, r *engine.Rand) *engine.TxPlan {
 	if r.Bool(m.cfg.ParamChange) {
 		return m.genParams(w, r)
 	}
-	switch r.Weighted(kinds) {
+	choice := r.Weighted(kinds)
+	if (choice == 1 || choice == 3) && p != nil && r.Bool(0.7) {
+		// removals are mostly attempted by accounts that hold the pool's liquidity token
+		var holders []int
+		for i := 0; i < nAct; i++ {
+			if w.Bal(w.A(i).Addr.String(), p.Lpt).Sign() > 0 {
+				holders = append(holders, i)
+			}
+		}
+		if len(holders) > 0 {
+			actor = holders[r.Intn(len(holders))]
+		}
+	}
+	switch choice {
 	case 0:
 		var sRef, tRef *big.Int = new(big.Int), new(big.Int)
 		if p != nil {
@@ -372,7 +385,7 @@ func (m *Module) Gen(w *engine.World, r *engine.Rand) *engine.TxPlan {
 		if have.Sign() > 0 && r.Bool(0.3) {
 			liq = have
 		}
-		minAmt := big.NewInt(0)
+		minAmt := big.NewInt(1) // validation demands a positive minimum
 		if r.Bool(0.2) {
 			minAmt = amount(r, w.Bal(p.Addr, tok), bits)
 		}
@@ -1046,6 +1059,24 @@ func (m *Module) Pools() []string {
 	var out []string
 	for _, d := range engine.SortedKeys(m.pools) {
 		out = append(out, m.pools[d].Lpt)
+	}
+	return out
+}
+
+// DurableQueries renders the pool queries (C12).
+func (m *Module) DurableQueries(w *engine.World, n *engine.Node) []engine.KV {
+	var out []engine.KV
+	ctx := n.Ctx()
+	for _, d := range engine.SortedKeys(m.pools) {
+		p := m.pools[d]
+		res, err := n.K.Coinswap.LiquidityPool(ctx, &cstypes.QueryLiquidityPoolRequest{LptDenom: p.Lpt})
+		v := ""
+		if err != nil {
+			v = "error: " + err.Error()
+		} else {
+			v = res.String()
+		}
+		out = append(out, engine.KV{K: "pool:" + p.Lpt, V: v})
 	}
 	return out
 }
